@@ -15,11 +15,12 @@ def enc(x):
     n = struct.unpack("<Q", struct.pack("<d", x))[0]
     rec = {"b1": n >> 42, "b2": (n >> 21) & 0x1FFFFF, "b3": n & 0x1FFFFF}
     if math.isnan(x):
-        rec.update(c="nan", m9=0, b1=0, b2=0, b3=0)
+        rec.update(c="nan", m9=0, m6=0, b1=0, b2=0, b3=0)
     elif math.isinf(x):
-        rec.update(c="inf", m9=0)
+        rec.update(c="inf", m9=0, m6=0)
     else:
-        rec.update(c="fin", m9=max(-2 * 10 ** 9, min(2 * 10 ** 9, int(round(x * 10 ** 9)))))
+        rec.update(c="fin", m9=max(-2 * 10 ** 9, min(2 * 10 ** 9, int(round(x * 10 ** 9)))),
+                   m6=max(-2 * 10 ** 9, min(2 * 10 ** 9, int(round(x * 10 ** 6)))))   # for values beyond +-2
     return rec
 
 
